@@ -75,10 +75,11 @@ func (d *TotalThroughputSampler) GetSampleRate(trace *types.Trace) (rate uint, k
 	}
 	count := int(trace.DescendantCount())
 
-	rate = uint(d.dynsampler.GetSampleRateMulti(key, count))
-	if rate < 1 { // protect against dynsampler being broken even though it shouldn't be
-		rate = 1
+	dynRate := d.dynsampler.GetSampleRateMulti(key, count)
+	if dynRate < 1 { // protect against dynsampler being broken even though it shouldn't be
+		dynRate = 1
 	}
+	rate = uint(dynRate)
 	shouldKeep := rand.Intn(int(rate)) == 0
 	d.metricsRecorder.RecordMetrics(d.dynsampler, shouldKeep, rate, n)
 
